@@ -230,7 +230,7 @@ class ErrorTree(object):
         for error in errors:
             container = self
             for element in error.path:
-                container = container[element]
+                container = container._contents[element]
             container.errors[error.validator] = error
 
             container._instance = error.instance
